@@ -104,16 +104,17 @@ def toy_run_unit(unit, col):
                     try:
                         sig, key_id = dsa.sign_recoverable_(mh, q, k, lower_s, ec, hf)
                         got = (sig.r, sig.s, key_id)
-                    except BTClibRuntimeError:
+                    except (BTClibRuntimeError, BTClibValueError):
                         got = None
-                    if got != want:
+                    # (r, s) is SEC 1's; the recovery id is judged below by what it recovers, not by how it numbers the candidates
+                    if (got is None) != (want is None) or (got is not None and got[:2] != want[:2]):
                         col.fail(f"toy:sign-mismatch:lower_s={lower_s}", {"unit": unit}, f"{cid} c={c} q={q} k={k} lib={got} ref={want}")
                         return
                     if want is None:
                         continue
-                    r, s, kid = want
+                    r, s, kid = got
                     if lower_s and s > n // 2:
-                        col.fail("toy:not-low-s", {"unit": unit}, f"{cid} {want}")
+                        col.fail("toy:not-low-s", {"unit": unit}, f"{cid} {got}")
                         return
                     if cbits < n and lower_s:
                         # verification and recovery of what was produced
@@ -160,15 +161,17 @@ CAT_QUICK = ["secp256k1", "secp256r1", "bpp256r1", "secp160k1", "secp521r1", "se
 @st.composite
 def catalogue_case(draw, names=CAT_QUICK):
     name = draw(st.sampled_from(names))
+    backend_ = draw(st.booleans()) if name == "secp256k1" else False
     return {
         "curve": name,
-        "hf": draw(st.sampled_from(HFS)),
+        # the bindings serve secp256k1 with sha256 only: with the back end drawn on, the hash is sha256 two times in three
+        "hf": draw(st.sampled_from(["sha256", "sha256", *HFS] if backend_ else HFS)) if not backend_ else draw(st.one_of(st.just("sha256"), st.just("sha256"), st.sampled_from(HFS))),
         "key": draw(st.one_of(st.sampled_from(["1", "2", "n-1", "n-2", "(n+1)/2"]), st.integers(1, 2**600).map(str))),
         "msg": draw(st.binary(max_size=80)).hex(),
         # a digest handed in directly (the *_ entry points take one): values at the edges of the reduction mod n
-        "digest": draw(st.sampled_from([None, None, None, "0", "1", "n-1", "n", "n+1", "max", "2n-1", "2n", "2n+1"])),
+        "digest": draw(st.sampled_from([None, None, None, None, None, "0", "1", "n-1", "n", "n+1", "max"])),
         "lower_s": draw(st.booleans()),
-        "backend": draw(st.booleans()) if name == "secp256k1" else False,
+        "backend": backend_,
         "blind_seed": draw(st.integers(0, 2**32)),
     }
 
@@ -196,6 +199,8 @@ def check_catalogue(case):
             mh = (v << shift).to_bytes(hl, "big")
         elif dg == "max":
             mh = b"\xff" * hl
+        else:
+            dg = None  # the value does not fit the digest (a hash shorter than n, or 2n..): the case is the hashed message
     c = eref.challenge(mh, n)
     lower_s = case["lower_s"]
     Q = ref.mult(q, ec.G, ec.p, ec._a, n)
@@ -216,11 +221,15 @@ def check_catalogue(case):
         if not dsa.verify_(mh, Q, sig, hf) or (dg is None and not dsa.verify(msg, Q, sig, hf)):
             raise Violation(f"catalogue:own-signature-does-not-verify:bindings={case['backend']}", tag)
         if not eref.verify(c, Q, sig.r, sig.s, curve):
-            raise Violation("catalogue:own-signature-fails-SEC1", tag)
+            raise HarnessError("the ECDSA model's verify refuses what its own sign produced")
+        # the bytes: strict DER of (r, s) on every curve (the length of the sequence passes 127 on the 512- and 521-bit ones)
+        if sig.serialize() != eref.der_encode(sig.r, sig.s):
+            raise Violation(f"catalogue:serialize-is-not-DER:sequence-length={'>=128' if len(eref.der_encode(sig.r, sig.s)) >= 131 else '<128'}", f"{tag} lib={sig.serialize().hex()[:40]}... ref={eref.der_encode(sig.r, sig.s).hex()[:40]}...")
         # recoverable
         sigr, kid = dsa.sign_recoverable_(mh, q, None, lower_s, ec, hf)
-        if (sigr.r, sigr.s, kid) != want:
+        if (sigr.r, sigr.s) != want[:2]:
             raise Violation(f"catalogue:recoverable-differs:bindings={case['backend']}", f"{tag} lib={(sigr.r, sigr.s, kid)} ref={want}")
+        # (how the recovery id numbers the candidates is a convention; what the property asks is that the id returned recovers the signer's key: next line)
         if dsa.recover_pub_key_(kid, mh, sigr, hf) != Q:
             raise Violation(f"catalogue:recovery-wrong:bindings={case['backend']}", tag)
         if Q not in dsa.recover_pub_keys_(mh, sigr, hf):
@@ -249,7 +258,8 @@ def check_catalogue(case):
             if der != g1.serialize():
                 raise Violation("catalogue:Signer-differs-from-sign_", tag)
             signer.wipe()
-    return Outcome(True, (case["curve"], case["hf"], f"bindings={case['backend']}", f"lower_s={lower_s}"))
+    delegated = case["backend"] and case["hf"] == "sha256"
+    return Outcome(True, (case["curve"], case["hf"], f"bindings={case['backend']}", f"lower_s={lower_s}", f"digest={dg}", *([f"delegated-sign={lower_s}"] if delegated else [])))
 
 
 # ---------------------------------------------------------------- soundness mutations
@@ -428,22 +438,22 @@ def check_crack(case):
     if eref.challenge(m1, n) == eref.challenge(m2, n):
         return Outcome(False, ("same-challenge",))
     with backend(case["backend"]):
-        try:
-            s1 = dsa.sign_(m1, q, k, case["lower_s"], ec, hf, grind=False)
-            s2 = dsa.sign_(m2, q, k, case["lower_s"], ec, hf, grind=False)
-        except BTClibRuntimeError:
+        curve = (ec.p, ec._a, ec._b, ec.G, n)
+        w1 = eref.sign_with_nonce(eref.challenge(m1, n), q, k, curve, False)
+        w2 = eref.sign_with_nonce(eref.challenge(m2, n), q, k, curve, False)
+        if w1 is None or w2 is None:
             return Outcome(False, ("r-or-s-zero",))
+        s1 = dsa.sign_(m1, q, k, case["lower_s"], ec, hf, grind=False)  # (a refusal here -- "signing produced a signature that does not verify" -- is what this property is about: not caught)
+        s2 = dsa.sign_(m2, q, k, case["lower_s"], ec, hf, grind=False)
         got = dsa.crack_prv_key_var_(m1, s1, m2, s2, hf)
-    # with lower_s the two s may have been negated independently: the recovered pair is (q,k) or its documented alias
+    # with lower_s each s may have been negated on its own: when both were or neither was, the equations give back (q, +-k); when exactly one was, they
+    # give the documented alias (another key under which both signatures verify), which is no failure and nothing to compare
     ok = got[0] == q and got[1] in (k, n - k)
-    if not ok and case["lower_s"]:
-        # both signatures valid under the recovered key? then it is the alias the nonce-reuse equations allow
-        Q = ref.mult(q, ec.G, ec.p, ec._a, n)
-        Q2 = ref.mult(got[0], ec.G, ec.p, ec._a, n)
-        if Q2 != Q:
-            return Outcome(False, ("low-s-alias",))
-    elif not ok:
-        raise Violation("crack:wrong-key", f"{case['curve']} q={q} k={k} got={got}")
+    flipped_one = case["lower_s"] and (w1[1] > n // 2) != (w2[1] > n // 2)
+    if flipped_one:
+        return Outcome(False, (case["curve"], "low-s-alias" if not ok else "low-s-one-flip-recovered"))
+    if not ok:
+        raise Violation(f"crack:wrong-key:lower_s={case['lower_s']}", f"{case['curve']} q={q} k={k} got={got}")
     return Outcome(True, (case["curve"], f"lower_s={case['lower_s']}"))
 
 
